@@ -517,6 +517,17 @@ fn typed_tag_fields(rec: &mut Rec, p: &str, tag: &Generic, kind: u32, opts: &Mbi
                         let (grub, spec) = crate::elfnames::names_mode(raw);
                         grub || spec
                     };
+                    // companions: every header once more, with the same leading bytes
+                    // in the other entry size, as a section of its own tag
+                    let twins = {
+                        let sz = tag.header().size as usize;
+                        let raw = unsafe { core::slice::from_raw_parts(tag as *const Generic as *const u8, sz.min(1 << 24)) };
+                        crate::relate::elf_twins(raw)
+                    };
+                    let twin_secs: Vec<ElfSection> = twins
+                        .iter()
+                        .filter_map(|a| catch(|| Generic::ref_from_slice(a.as_slice()).ok().and_then(|g| g.cast::<ElfSectionsTag>().sections().next())).flatten())
+                        .collect();
                     if d {
                         dbg(rec, format!("{p}.s.dbg"), &it, true);
                     }
@@ -551,6 +562,17 @@ fn typed_tag_fields(rec: &mut Rec, p: &str, tag: &Generic, kind: u32, opts: &Mbi
                                     let v = crate::relate::relate_sections(&s, &ds);
                                     let v2 = crate::relate::relate_sections(&ds, &s);
                                     rec.t.push(format!("{q}.rel"), if v == v2 { v } else { Val::B(false) });
+                                }
+                                if !twin_secs.is_empty() && j < 8 {
+                                    let mut all = Val::B(true);
+                                    for ts in &twin_secs {
+                                        for v in [crate::relate::relate_sections(ts, &s), crate::relate::relate_sections(&s, ts)] {
+                                            if v != Val::B(true) {
+                                                all = v;
+                                            }
+                                        }
+                                    }
+                                    rec.t.push(format!("{q}.rel_twins"), all);
                                 }
                                 if names_ok {
                                     rec.call(format!("{q}.name"), || match s.name() {
